@@ -214,7 +214,7 @@ def _split_check(residual, atoms, timeout, first):
 
 def _run_clause(case, cname, per_path, timeout, known_entries, res):
   out = {"kind": None, "status": "discharged", "vcs": 0, "seconds": 0.0, "solvers": {},
-         "witness": None, "model_raw": None, "reason": "", "known": [], "path": None}
+         "witness": None, "model_raw": None, "reason": "", "known": [], "path": None, "probe": None}
   for p, s in per_path:
     if s is None:
       kind, g = out["kind"] or "claim", z3.BoolVal(False)
@@ -282,6 +282,14 @@ def _run_clause(case, cname, per_path, timeout, known_entries, res):
       if out["status"] != "failed":
         out["status"] = "unknown"
         out["reason"] += " solver: %s" % o.reason
+        if s is not None and s.replay is not None and out.get("probe") is None:
+          # no counter-model: offer the native side a concrete configuration of this path to probe
+          bounds = case.bounds(vars_) if case.bounds else []
+          pm = VC.check_sat(list(p.pc) + bounds, 5000, use_external=False)
+          if pm.status == "sat":
+            wp = _witness(pm.model, vars_)
+            wp["__replay__"] = _eval_replay(pm.model, s.replay)
+            out["probe"] = wp
     # confirm each known finding still reproduces (on some path)
     for ent, x in excl:
       if any(k["id"] == ent["id"] for k in out["known"]):
